@@ -217,10 +217,73 @@ pub fn c04(tier: Tier) -> Result<Report, String> {
     driver::run_plan(plan)
 }
 
+fn heap_monitor(_: &Scenario, _: &Config) -> Box<dyn Monitor> {
+    Box::new(StdMonitor {
+        heap: true,
+        ..Default::default()
+    })
+}
+
+fn c06_oracle(sc: &Scenario, reference: &Outcome, got: &Outcome) -> Option<(String, String)> {
+    if let Some(expect) = &sc.expect {
+        let ok = got
+            .entry
+            .as_deref()
+            .map(|g| expect.split(" || ").any(|e| e == g))
+            .unwrap_or(false);
+        if !ok {
+            return Some((
+                "O-bytes".to_string(),
+                format!(
+                    "binaries in the result do not read back the bytes they were created with: got {:?}, host-computed {:?}",
+                    got.entry, expect
+                ),
+            ));
+        }
+    }
+    if sc.confluent && got != reference {
+        return Some((
+            "O-bytes".to_string(),
+            format!("outcome differs from the reference run: got {:?}, reference {:?}", got, reference),
+        ));
+    }
+    None
+}
+
+pub fn c06(tier: Tier) -> Result<Report, String> {
+    let thorough = tier == Tier::Thorough;
+    let plan = Plan {
+        property: "C06",
+        scenarios: scenarios::bin_all(),
+        configs: Box::new(move |sc| {
+            if thorough {
+                grid(sc, &[1, 2, 3], &[1, 2, 3, 1000], true)
+            } else {
+                grid(sc, &[1, 2], &[1, 2, 1000], false)
+            }
+        }),
+        bound: if thorough { 3 } else { 2 },
+        explicit: Box::new(move |_sc, cfg| {
+            if thorough && cfg.quantum >= 3 && cfg.workers <= 2 {
+                Some(300_000)
+            } else {
+                None
+            }
+        }),
+        monitor: &heap_monitor,
+        oracle: Some(&c06_oracle),
+        wall_budget_s: if thorough { 840.0 } else { 45.0 },
+        assumptions: ASSUME_A.iter().map(|s| s.to_string()).collect(),
+        explanation: "Binary-churn scenarios (heap binaries created, shared in tuples/closures, sliced, sent, skipped/taken by filters, captured and passed at spawn, dropped in tail loops, awaited twice, left in mailboxes) under every schedule within the deviation bound, down to one instruction per time slice (quantum 1 puts a reclamation point between every two instructions). After EVERY worker action, on that worker's executor: check_refcounts() (count > 0 <=> reachable, using the repository's own root set), no reachable slot is freed, free list == freed flags without duplicates, freed slots have count 0; at quiescence after one flushing slice: no unreachable slot lingers outside the free list; result bytes equal host-computed bytes. Debug assertions of the repository (use-after-free, release underflow, refcount check at process completion) are live in the verif profile and count as I-noerr.".to_string(),
+    };
+    driver::run_plan(plan)
+}
+
 pub fn monitor_for(property: &str) -> (&'static driver::MonitorFactory, Option<&'static driver::OutcomeOracle>) {
     match property {
         "C03" => (&std_monitor, Some(&c03_oracle)),
         "C04" => (&conserve_monitor, Some(&c04_oracle)),
+        "C06" => (&heap_monitor, Some(&c06_oracle)),
         _ => (&std_monitor, None),
     }
 }
